@@ -147,15 +147,21 @@ func (n *DestinationAckerNode) worker(
 				continue
 			}
 
-			if len(acks) == 0 {
+			fetchFailed := false
+			for len(acks) == 0 {
 				// Ack can return multiple acks, store them and check the position
-				// for the current message
+				// for the current message. A response without any ack carries
+				// nothing to apply: keep waiting instead of indexing into it.
 				var err error
 				acks, err = n.Destination.Ack(ctx)
 				if err != nil {
 					handleError(msg, cerrors.Errorf("error while fetching acks: %w", err))
-					return
+					fetchFailed = true
+					break
 				}
+			}
+			if fetchFailed {
+				return
 			}
 
 			ack := acks[0]
